@@ -10,10 +10,12 @@ package numeric
 
 //@ func Float64ToInt64
 //@   mode bv fp
+//@   pure
 //@   ensures result == f2ibits(bits(f))
 
 //@ func Int64ToFloat64
 //@   mode bv fp
+//@   pure
 //@   ensures result == frombits(i2fbits(i))
 
 //@ lemma f2i_roundtrip bv fp: forall b uint64 :: i2fbits(f2ibits(b)) == b
@@ -28,6 +30,7 @@ package numeric
 //@ func NewPrefixCodedInt64Prealloc
 //@   mode bv
 //@   nopanic
+//@   modifies elems(prealloc)
 //@   ensures shift > 63 ==> err != nil && rv == nil
 //@   ensures shift <= 63 ==> err == nil && len(rv) == int64(nchars(shift)) + 1
 //@   ensures shift <= 63 ==> rv[0] == 0x20 + byte(shift)
@@ -42,6 +45,7 @@ package numeric
 //@ func PrefixCoded.Shift
 //@   mode bv
 //@   nopanic
+//@   pure
 //@   ensures (len(p) > 0 && p[0] - 0x20 < 63) ==> (result1 == nil && result0 == uint(p[0] - 0x20))
 //@   ensures !(len(p) > 0 && p[0] - 0x20 < 63) ==> result1 != nil
 
